@@ -168,6 +168,12 @@ func (g *VGen) pool(t *ty.Ty, depth int) []*ty.Val {
 			ks := g.distinctKeys(g.pool(u.Key, depth-1))
 			vs := g.pool(u.Elem, depth-1)
 			k1, v1 := ks[0], vs[0]
+			if len(ks) > 1 && len(vs) > 2 {
+				// two keys holding two different non-base values of similar shape (a copy loop that carries
+				// state from one entry to the next mixes them up)
+				i := 1 + g.Rng.Intn(len(vs)-2)
+				out = append(out, &ty.Val{K: ty.VMap, Elems: []*ty.Val{k1, vs[i], ks[1], vs[i+1]}})
+			}
 			out = append(out, &ty.Val{K: ty.VMap, Elems: []*ty.Val{k1, v1}})
 			if len(vs) > 1 {
 				out = append(out, &ty.Val{K: ty.VMap, Elems: []*ty.Val{k1, vs[1]}})
